@@ -448,6 +448,13 @@ def generated_case(ctx, i, rng, res):
         # submodule + INCLUDEd fragments (short files included deep inside longer ones)
         from vf import hostassoc as HA
         files = HA.gen(rng)[0]
+        # a diagnosed statement in every including procedure, on a line the short fragments do not have
+        for f_ in list(files):
+            if not f_.endswith("_inc.f90") and "include '" in files[f_]:
+                ls_ = files[f_].split("\n")
+                k_ = max(n for n, l in enumerate(ls_) if "include '" in l)
+                ls_.insert(k_ + 1, "    integer, intent(in) :: zz_not_an_argument")
+                files[f_] = "\n".join(ls_)
     elif rng.random() < 0.35:
         # fixed-form rendering of the same program (continuation marks in column 6, labels, comment flags)
         from vf import layout as LY
